@@ -292,11 +292,11 @@ fn exec_bb_in(case: &BbCase, acmed: &std::path::Path, dir: &std::path::Path) -> 
 		if interrupt_for.is_some() && interrupt_for == renew && run_targets.len() == 1 {
 			// a first life that ends with the first reported attempt (normally the one that met the fault), then the restart
 			let e = interrupt_for.take().unwrap();
+			coll.hold_when(Box::new(|r, _| bb::is_post(r)));
 			let mut d0 = match Daemon::spawn(&bb::daemon_opts(acmed, dir, &cfg_path, &format!("s{si}i"))) {
 				Ok(d) => d,
 				Err(e) => return Outcome::Infra(e),
 			};
-			coll.hold_when(Box::new(|r, _| bb::is_post(r)));
 			let before = coll.records().iter().filter(|x| bb::is_post(x)).count();
 			let ok = coll.wait_until(&|r| r.iter().filter(|x| bb::is_post(x)).count() > before, Duration::from_secs(60), &mut || d0.state() != ProcState::Alive);
 			let recs = coll.records();
